@@ -247,7 +247,7 @@ struct Machine
     for (int a = 0; a < na; ++a)
       if (nonidentity_start[size_t(a)] && (full || a == 1)) ops.push_back({3, a, 0, 0, false});
     for (int a = 0; a < na; ++a)
-      if (full || a == 0 || a == na - 1) ops.push_back({4, a, 0, 0, false});
+      if (a == 0 || a == na - 1) ops.push_back({4, a, 0, 0, false});  // two atoms suffice: the operand's crop offsets are what matters
     std::vector<double> ts;
     const double tm = st.s.t_max();
     if (tm > 0) {
